@@ -365,6 +365,32 @@ impl World {
                     }
                 }
             }
+            // ---- operator duties that the library leaves to the application: a leader that was removed from
+            // the voters keeps leading but refuses proposals -> hand leadership to a voter; a joint configuration
+            // entered with an explicit transition is left by proposing the empty change
+            let acting_leader: Option<NodeId> = if leaders.len() == 1 {
+                Some(leaders[0])
+            } else if leaders.is_empty() {
+                // a removed leader is no member any more but still leads the members
+                self.nodes.values().filter(|x| x.running() && x.obs.role == StateRole::Leader && !x.obs.conf.is_voter(x.id)).max_by_key(|x| x.obs.term).map(|x| x.id)
+            } else {
+                None
+            };
+            if let (Some(l), true) = (acting_leader, round % et_ticks == 1) {
+                let lc = self.nodes[&l].obs.conf.clone();
+                if !lc.is_voter(l) {
+                    let cands: Vec<NodeId> = members.iter().filter(|n| **n != l && lc.voters.contains(*n)).cloned().collect();
+                    if !cands.is_empty() && self.nodes[&l].obs.transferee.is_none() {
+                        let t = *rng.pick(&cands);
+                        self.apply_quiet(&Action::Transfer { n: l, target: t })?;
+                        self.bump("suffix_operator_transfers_from_removed_leader");
+                    }
+                } else if lc.joint() && !lc.auto_leave && self.nodes[&l].obs.transferee.is_none() {
+                    proposal_id += 1;
+                    self.apply_quiet(&Action::ProposeConf { n: l, id: proposal_id, v1: false, transition: 0, changes: vec![] })?;
+                    self.bump("suffix_leave_joint_proposed");
+                }
+            }
             // ---- client: keeps proposing (one election timeout apart) until a fresh proposal made after
             // convergence has been applied by every running member
             if leaders.len() == 1 && (proposal.is_none() || round % et_ticks == 0) {
@@ -435,7 +461,13 @@ impl World {
             let leader_applied = self.nodes.values().filter(|x| x.running() && x.obs.role == StateRole::Leader).max_by_key(|x| x.obs.term).map(|x| x.sm.applied).unwrap_or(0);
             let req_stall = self.nodes.values().any(|x| x.running() && x.obs.pending_request_snapshot > leader_applied && x.obs.conf.is_voter(x.id))
                 || self.nodes.values().filter(|x| x.running() && x.obs.role == StateRole::Leader).any(|x| x.obs.prs.iter().any(|p| p.pending_request_snapshot > x.sm.applied && x.obs.conf.is_voter(p.id)));
-            let sig = if req_stall {
+            // a non-voter (learner / demoted voter) whose term is above the leader's never answers the
+            // leader's lower-term messages unless check_quorum or pre_vote is on, and never campaigns
+            let leader_term = self.nodes.values().filter(|x| x.running() && x.obs.role == StateRole::Leader).map(|x| x.obs.term).max().unwrap_or(0);
+            let deaf_nonvoter = self.nodes.values().any(|x| x.running() && x.obs.term > leader_term && leader_term > 0 && !x.obs.promotable && !(x.cfg.check_quorum || x.cfg.pre_vote));
+            let sig = if deaf_nonvoter {
+                "stall:higher_term_nonvoter_ignores_leader"
+            } else if req_stall {
                 "stall:voter_requests_snapshot_beyond_commit"
             } else if converged_at.is_none() {
                 "no_convergence"
